@@ -64,8 +64,11 @@ func (e errsStringer) String() string {
 	return e.e.Error()
 }
 
-func normalize(query string, vars []byte) (res normResult) {
-	req := &graphql.Request{Query: query}
+func normalize(query string, vars []byte) (res normResult) { return normalizeOp(query, vars, "") }
+
+// normalizeOp: the same with an operation name (documents with several operations).
+func normalizeOp(query string, vars []byte, opName string) (res normResult) {
+	req := &graphql.Request{Query: query, OperationName: opName}
 	if len(vars) > 0 {
 		req.Variables = append([]byte(nil), vars...)
 	}
